@@ -479,6 +479,12 @@ package encoder
 //@   ensures state == 0 && size == 2 ==> s[0] >= 194 && s[0] <= 223 && cont(s[1])
 //@   ensures state == 0 && size == 3 ==> s[0] >= 224 && s[0] <= 239 && cont(s[1]) && cont(s[2]) && (s[0] == 224 ==> s[1] >= 160) && (s[0] == 237 ==> s[1] <= 159)
 //@   ensures state == 0 && size == 4 ==> s[0] >= 240 && s[0] <= 244 && cont(s[1]) && cont(s[2]) && cont(s[3]) && (s[0] == 240 ==> s[1] >= 144) && (s[0] == 244 ==> s[1] <= 143)
+// completeness: every well-formed sequence (Unicode table 3-7) other than U+2028/U+2029 is reported valid with its length,
+// so no valid character is replaced by U+FFFD (needed for the round trip of strings)
+//@   ensures s[0] < 128 ==> state == 0 && size == 1
+//@   ensures len(s) >= 2 && s[0] >= 194 && s[0] <= 223 && cont(s[1]) ==> state == 0 && size == 2
+//@   ensures len(s) >= 3 && s[0] >= 224 && s[0] <= 239 && cont(s[1]) && cont(s[2]) && (s[0] == 224 ==> s[1] >= 160) && (s[0] == 237 ==> s[1] <= 159) && !(s[0] == 226 && s[1] == 128 && (s[2] == 168 || s[2] == 169)) ==> state == 0 && size == 3
+//@   ensures len(s) >= 4 && s[0] >= 240 && s[0] <= 244 && cont(s[1]) && cont(s[2]) && cont(s[3]) && (s[0] == 240 ==> s[1] >= 144) && (s[0] == 244 ==> s[1] <= 143) ==> state == 0 && size == 4
 //@   assigns nothing
 
 //@ func appendNormalizedString(buf, s) (res)
